@@ -708,6 +708,13 @@ func (p *QueryParam) Keys() []string {
 	return slices.Compact(keys)
 }
 
+// Set sets a single parameter, overriding all previously set values of the key.
+// (Args.Set alone replaces only the first of several values.)
+func (p *QueryParam) Set(key, val string) {
+	p.Args.Del(key)
+	p.Args.Set(key, val)
+}
+
 // AddParams adds multiple parameters from a map.
 func (p *QueryParam) AddParams(r map[string][]string) {
 	for k, v := range r {
@@ -855,6 +862,7 @@ func (f *FormData) Add(key, val string) {
 
 // Set sets a single form field, overriding previously set values.
 func (f *FormData) Set(key, val string) {
+	f.Args.Del(key) // Args.Set alone replaces only the first of several values
 	f.Args.Set(key, val)
 }
 
